@@ -11,6 +11,8 @@ class Project:
         self.consts = consts
         self.shape = shape
         self.extras = extras or {}  # {i: extra line (e.g. an injected warning / error)}
+        self.members = []
+        self.cyc_uses_var = False   # cross-cycle accessors read the partner's function `.f` (pre-registered); True: its variable `.x`
 
     def x(self, i, memo=None):
         memo = {} if memo is None else memo
@@ -32,7 +34,7 @@ class Project:
             lines.append(f".f(n: Int): Int = n + {self.consts[i]}")
             lines.append(f'.s: Str = "{n}"')
             for j in self.cyc.get(i, []):
-                lines.append(f".g{j}(): Int = {self.names[j]}.x")
+                lines.append(f".g{j}(): Int = {self.names[j]}.{'x' if self.cyc_uses_var else 'f(2)'}")
         else:
             lines.append(f"x = {' + '.join(terms)}")
             lines.append('print! "val main", x')
@@ -54,7 +56,7 @@ class Project:
             vals.append(f"val {self.names[j]} {self.x(j, memo)} {1 + self.consts[j]} {self.names[j]}")
         for j in sorted(set(self.dag.get(0, []))):
             for k in self.cyc.get(j, []):
-                vals.append(f"g {self.names[j]} {self.names[k]} {self.x(k, memo)}")
+                vals.append(f"g {self.names[j]} {self.names[k]} {self.x(k, memo) if self.cyc_uses_var else 2 + self.consts[k]}")
         return out, vals
 
     def reachable(self, t):
@@ -114,26 +116,31 @@ def generate(seed, allow_cycles=True):
     for j in range(1, n):
         if not any(j in v for v in dag.values()):
             add(dag, r.randrange(0, j), j)
+    members = []
     if shape == "cycle2" and n >= 3:
-        a, b = sorted(r.sample(range(1, n), 2))
-        add(dag, 0, a)
-        add(cyc, a, b)
-        add(cyc, b, a)
-        dag[a] = [j for j in dag.get(a, []) if j != b]
+        members = sorted(r.sample(range(1, n), 2))
     elif shape == "cycle3" and n >= 4:
-        a, b, c = sorted(r.sample(range(1, n), 3))
-        add(dag, 0, a)
-        for u, v in ((a, b), (b, c), (c, a)):
-            add(cyc, u, v)
-            if v in dag.get(u, []):
-                dag[u].remove(v)
+        members = sorted(r.sample(range(1, n), 3))
     elif shape == "self":
-        a = r.randrange(1, n)
-        add(dag, 0, a)
-        add(cyc, a, a)
+        members = [r.randrange(1, n)]
+    if members:
+        # cycle members use each other only inside function bodies and have no top-level (dag) imports of their own,
+        # so the only cycles are the intended ones; outsiders may import a member and use its value at top level
+        for m in members:
+            dag.pop(m, None)
+        if r.random() < 0.5:
+            # single entry: only one outsider imports one member
+            for i in list(dag):
+                dag[i] = [j for j in dag[i] if j not in members]
+            add(dag, r.choice([i for i in range(0, n) if i not in members]), members[0])
+        elif not any(m in v for m in members for v in dag.values()):
+            add(dag, 0, members[0])
+        for u, v in zip(members, members[1:] + members[:1]):
+            add(cyc, u, v)
     # re-establish reachability after removing edges
     p = Project(names, dag, cyc, consts, shape)
     for j in range(1, n):
-        if not p.reachable(j):
+        if not p.reachable(j) and j not in members:
             add(dag, 0, j)
+    p.members = members
     return p
